@@ -26,7 +26,7 @@ def check_doc(ck, case, rnd, tmp, do_sax=True):
     if not shapes:
         return
     # attribute values: small integers, or the same shapes scaled and moved to coordinates that need many significant digits
-    G = None if rnd.random() < 0.6 else rnd.choice([(12.0625, 350218.4375), (1e-3, 0.000123456789), (3.0, -77.7)])
+    G = None if rnd.random() < 0.6 else rnd.choice([(12.0625, 350218.4375), (1e-3, 0.000123456789), (3.0, -77.7), (1.0, 3000000.25)])
     text = sm.render(case, rnd, G=G)
     fn = os.path.join(tmp, 'doc.svg')
     with open(fn, 'w') as f:
@@ -156,6 +156,12 @@ def mirror_hidden_in_the_product(ck, tmp):
               [('rotate(60) skewX(-70)', T(c60, s60, -s60, c60, 0, 0).dot(T(1, 0, math.tan(math.radians(-70)), 1, 0, 0)))],
               [('translate(3,1)', T(1, 0, 0, 1, 3, 1)), ('matrix(0 2 1 0 5 -2)', T(0, 2, 1, 0, 5, -2))],
               [('scale(1,-1)', T(1, 0, 0, -1, 0, 0)), ('rotate(90)', T(0, 1, -1, 0, 0, 0))]]
+    # rotate(a, cx, cy) = translate(cx, cy) rotate(a) translate(-cx, -cy), also when the centre lies on a coordinate axis
+    def R(a, cx, cy):
+        c_, s_ = math.cos(math.radians(a)), math.sin(math.radians(a))
+        return T(1, 0, 0, 1, cx, cy).dot(T(c_, s_, -s_, c_, 0, 0)).dot(T(1, 0, 0, 1, -cx, -cy))
+    chains += [[('rotate(90 4 0)', R(90, 4, 0))], [('rotate(-30, 0, 5)', R(-30, 0, 5))], [('rotate(45 3 2)', R(45, 3, 2))], [('rotate(120,0,0)', R(120, 0, 0))],
+               [('translate(2,0)', T(1, 0, 0, 1, 2, 0)), ('rotate(60 0 -7)', R(60, 0, -7))], [('rotate(10 6 0) scale(2)', R(10, 6, 0).dot(T(2, 0, 0, 2, 0, 0)))]]
     ref = list(sp.parse_path(sm.PATH_D[1]))
     for ci, chain_ in enumerate(chains):
         M = np.eye(3)
@@ -179,6 +185,36 @@ def mirror_hidden_in_the_product(ck, tmp):
             if diff:
                 ck.disagree(key='%s/geometry/path/arc/mirror-hidden-in-the-product' % who, site='svgpathtools/path.py:transform (Arc)',
                             what='%s of %s: %s' % (who, text, diff), case={'svg': text}, expected='the arc path mapped by %s' % M6, observed=diff, driver='flatten')
+
+
+def foreign_namespace_elements(ck, tmp):
+    """elements of another namespace whose local names are those of SVG shapes (editor payloads, metadata) are not SVG shapes: every reader returns the SVG
+    elements only, in place, with the transforms of their ancestors"""
+    text = ('<svg xmlns="%s" xmlns:ed="http://example.org/editor" version="1.1">'
+            '<metadata><ed:rect x="1" y="1" width="3" height="3"/><ed:path d="M0,0 L9,9"/></metadata>'
+            '<g transform="translate(10,0)"><ed:line x1="0" y1="0" x2="5" y2="5"/><path id="a" d="M0,0 L4,0 L4,3"/><ed:circle cx="1" cy="1" r="1"/></g>'
+            '<ed:polygon points="0,0 1,1 2,0"/><line id="b" x1="1" y1="2" x2="3" y2="4"/><ed:polyline points="0,0 1,1"/><ed:ellipse cx="0" cy="0" rx="2" ry="1"/></svg>') % sm.NS
+    fn = os.path.join(tmp, 'foreign.svg')
+    with open(fn, 'w') as f:
+        f.write(text)
+    want = [sp.parse_path('M10,0 L14,0 L14,3'), sp.parse_path('M1,2 L3,4')]
+    readers = [('Document.paths', lambda: sp.Document(fn).paths()), ('SaxDocument.flatten_all_paths', lambda: sp.SaxDocument(fn).flatten_all_paths()),
+               ('svg2paths', lambda: sp.svg2paths(fn)[0])]
+    for who, f_ in readers:
+        ck.case(fp=('foreign-namespace', who), nontrivial=True)
+        try:
+            got = list(f_())
+            if who == 'svg2paths':
+                want_ = [sp.parse_path('M0,0 L4,0 L4,3'), sp.parse_path('M1,2 L3,4')]       # svg2paths does not flatten
+            else:
+                want_ = want
+            same = lambda g_, w_: len(g_) == len(w_) and all(abs(a_.start - b_.start) <= 1e-9 and abs(a_.end - b_.end) <= 1e-9 for a_, b_ in zip(g_, w_))      # noqa
+            ok = len(got) == len(want_) and all(any(same(g_, w_) for g_ in got) for w_ in want_)      # (the order of the returned list is not part of the claim)
+        except Exception as e:      # noqa
+            ok, got = False, repr(e)
+        if not ok:
+            ck.disagree(key='%s/elements-of-a-foreign-namespace' % who, site='svgpathtools/svg_io_sax.py / document.py / svg_to_paths.py', what='%s of a document with foreign-namespace elements named like shapes: %r' % (who, got),
+                        case={'svg': text}, expected=[repr(w_) for w_ in want], observed=repr(got), driver='flatten')
 
 
 def run(ck):
@@ -232,6 +268,7 @@ def run(ck):
             ck.tlc('SvgDoc', d % (nn, allk, 10), workers=1, coverage=False, simulate=num, depth=2 * nn + 3, on_case=on_case, timeout=3000)
         ck.count('documents', st['n'])
         mirror_hidden_in_the_product(ck, tmp)
+        foreign_namespace_elements(ck, tmp)
     finally:
         shutil.rmtree(tmp, ignore_errors=True)
 
